@@ -20,6 +20,8 @@ EXC = "httpcore._exceptions."
 NET_READ_RAISES = [EXC + "ReadError", EXC + "ReadTimeout"]
 NET_WRITE_RAISES = [EXC + "WriteError", EXC + "WriteTimeout"]
 NET_CONNECT_RAISES = [EXC + "ConnectError", EXC + "ConnectTimeout"]
+# representatives of "any other kind of failure" at the connect / TLS stage (a custom backend may raise them)
+UNDOCUMENTED_CONNECT_FAILURES = [EXC + "ReadTimeout", "OtherException"]
 
 
 def kw(args, kwargs, i, name, default=NONE):
@@ -28,12 +30,19 @@ def kw(args, kwargs, i, name, default=NONE):
     return kwargs.get(name, default)
 
 
-def outcome(it, st, label, raises):
-    """choose normal (0) or one of the exception classes; raise it if chosen"""
-    names = ["ok"] + [r.rsplit(".", 1)[-1] for r in raises]
+def outcome(it, st, label, raises, undocumented=()):
+    """choose normal (0) or one of the exception classes; raise it if chosen.
+    `undocumented`: representative classes outside the callee's documented contract; they are
+    explored (so that "any other failure is not retried / not swallowed" obligations see them)
+    but are assumed absent for the exception-type property (tag assumed_absent)."""
+    allr = list(raises) + list(undocumented)
+    names = ["ok"] + [r.rsplit(".", 1)[-1] for r in allr]
     c = it.eng.choose(st, len(names), label, names)
     if c > 0:
-        it.eng.raise_(st, raises[c - 1], tag={"from": label})
+        tag = {"from": label}
+        if c > len(raises):
+            tag["assumed_absent"] = True
+        it.eng.raise_(st, allr[c - 1], tag=tag)
 
 
 def register(reg):
@@ -158,7 +167,7 @@ def register(reg):
         )
         it.suspend(st, f"net.start_tls@{node.lineno}")  # Cancelled here leaves the raw stream open
         try:
-            outcome(it, st, f"net.start_tls@{node.lineno}", NET_CONNECT_RAISES)
+            outcome(it, st, f"net.start_tls@{node.lineno}", NET_CONNECT_RAISES, undocumented=UNDOCUMENTED_CONNECT_FAILURES)
         except PyRaise:
             # backends close the raw stream when the handshake fails with an Exception
             eng.heap_write(st, self_v, "NS.open", VBool(False))
@@ -169,6 +178,8 @@ def register(reg):
         eng.heap_write(st, new, "NS.wraps", self_v)
         eng.heap_write(st, new, "NS.written", VBytes(b""))
         st.ghost.setdefault("streams", []).append(new)
+        stream_of_interest(st, new.t)
+        stream_of_interest(st, self_v.t)
         # ownership of the raw stream moves into the TLS stream: closing the new one closes it
         st.ghost.setdefault("wrapped", []).append((new, self_v))
         return new
@@ -197,13 +208,14 @@ def register(reg):
             data["timeout"] = eng.to_val(st, data["timeout"])
             it.emit(st, "net.connect_" + kind, node, backend=self_v, **data)
             it.suspend(st, f"net.connect_{kind}@{node.lineno}")
-            outcome(it, st, f"net.connect_{kind}@{node.lineno}", NET_CONNECT_RAISES)
+            outcome(it, st, f"net.connect_{kind}@{node.lineno}", NET_CONNECT_RAISES, undocumented=UNDOCUMENTED_CONNECT_FAILURES)
             s = eng.alloc(st, NS, "stream")
             eng.heap_write(st, s, "NS.open", VBool(True))
             eng.heap_write(st, s, "NS.tls", VBool(False))
             eng.heap_write(st, s, "NS.wraps", VRef(0, NS))
             eng.heap_write(st, s, "NS.written", VBytes(b""))
             st.ghost.setdefault("streams", []).append(s)
+            stream_of_interest(st, s.t)
             st.trace[-1 if st.trace[-1].name.startswith("net.connect") else -2].data["result"] = s
             return s
 
